@@ -315,7 +315,7 @@ theorem ext_loopAll {sem : ScmSem σ κ} {new : List (NewEntry σ)} (ae : Bool) 
     intro st tr
     unfold Checkout.loopAll
     cases h : loopStep sem ae new st tr e with
-    | error x => exact Ext.refl _ _ _
+    | error x => exact ext_trySwitch e _ st
     | ok v =>
       obtain ⟨st', tr'⟩ := v
       exact (ext_loopStep ae st st' tr tr' e h).trans (ih st' tr')
@@ -557,7 +557,7 @@ theorem J_loopAll (hs : SemKeeps sem work) (ae : Bool) :
     intro st tr h
     unfold Checkout.loopAll
     cases hl : loopStep sem ae new st tr e with
-    | error x => exact h
+    | error x => exact J_trySwitch hs e _ st h
     | ok v =>
       obtain ⟨st', tr'⟩ := v
       exact ih st' tr' (J_loopStep hs ae st st' tr tr' e hl h)
